@@ -294,7 +294,7 @@ def run(sc, ctx):
     for hist, v in viols:
         out['violations'].append(viol(v.clause, v.sig, 'history %r from "%s": %s' % (hist, INITS[sc['init']], v.msg), dict(init=sc['init'], history=hist)))
     out['outcomes']['init=%d first=%s' % (sc['init'], sc['first'][0])] = 1
-    out['nontrivial'] = len(seen)
+    out['nontrivial_hashes'] = set(seen)       # distinct states, counted once across scenarios
     if sc['init'] == 1 and sc['first'][0] == 'del' and sc['first'][1] == [0]:
         out['samples'] = [dict(initial=INITS[1], first_operation=sc['first'], depth=m.depth, states_below=len(seen))]
     return out
